@@ -160,7 +160,7 @@ theorem weiNext_eq (st : SrcSt n) : weiNext st =
     if ((List.finRange n).filter fun i => st.S[i]).isEmpty = true then Next.done else
     match ominL (((List.finRange n).filter fun i => st.S[i]).map fun i => st.D[i]) with
     | none => Next.fill ((List.finRange n).filter fun i => st.D[i].isNone)
-    | some m => Next.batch ((List.finRange n).filter fun i => st.D[i] == some m) := rfl
+    | some m => Next.batch ((List.finRange n).filter fun i => st.S[i] && st.D[i] == some m) := rfl
 
 /-- the three exits of the loop body -/
 theorem weiNext_spec {st : SrcSt n} {m : ℕ} {ord : List (Fin n)} (h : LJ L u st m ord) :
@@ -168,7 +168,7 @@ theorem weiNext_spec {st : SrcSt n} {m : ℕ} {ord : List (Fin n)} (h : LJ L u s
     (∃ idx, weiNext st = .fill idx ∧ idx = ((List.finRange n).filter fun i => st.D[i].isNone) ∧
       idx ≠ [] ∧ (∀ x : Fin n, st.S[x] = true → (dist L).get u x = none) ∧
       ∃ st', fillFront st idx = .ok st' ∧ FwdOK L u st') ∨
-    (∃ V' m', weiNext st = .batch V' ∧ V' = ((List.finRange n).filter fun i => st.D[i] == some m') ∧
+    (∃ V' m', weiNext st = .batch V' ∧ V' = ((List.finRange n).filter fun i => st.S[i] && st.D[i] == some m') ∧
       LI L u st V' m' ord) := by
   set uns := (List.finRange n).filter fun i => st.S[i] with huns
   have hmem : ∀ x : Fin n, x ∈ uns ↔ st.S[x] = true := by
@@ -295,17 +295,23 @@ theorem weiNext_spec {st : SrcSt n} {m : ℕ} {ord : List (Fin n)} (h : LJ L u s
           obtain ⟨c, hc, hcle⟩ := (h.rel x).lower hxu z (mem_settled.2 hSz) hLz a ha _ rfl
           have := hminD x c hS hc
           rw [hc]; congr 1; omega
-      refine ⟨(List.finRange n).filter fun i => st.D[i] == some k0, k0,
+      have hSV : ∀ x : Fin n, (dist L).get u x = some k0 → st.S[x] = true := by
+        intro x hk
+        by_contra hS
+        obtain ⟨k', hk', hle⟩ := (h.Sset x).1 (by simpa using hS)
+        rw [hk] at hk'; simp only [Option.some.injEq] at hk'; omega
+      refine ⟨(List.finRange n).filter fun i => st.S[i] && st.D[i] == some k0, k0,
         by rw [hwn, ho], rfl, ?_⟩
       constructor
       · exact (List.nodup_finRange n).filter _
       · intro hnil
-        have : x0 ∈ (List.finRange n).filter fun i => st.D[i] == some k0 :=
-          List.mem_filter.2 ⟨List.mem_finRange _, by rw [hD0]; exact beq_self_eq_true _⟩
+        have : x0 ∈ (List.finRange n).filter fun i => st.S[i] && st.D[i] == some k0 :=
+          List.mem_filter.2 ⟨List.mem_finRange _, by rw [hS0, hD0]; simp⟩
         rw [hnil] at this; exact absurd this (by simp)
       · intro x
-        rw [← hVmem, List.mem_filter]
-        exact ⟨fun hh => beq_iff_eq.1 hh.2, fun hh => ⟨List.mem_finRange x, beq_iff_eq.2 hh⟩⟩
+        rw [List.mem_filter, Bool.and_eq_true, beq_iff_eq]
+        exact ⟨fun hh => (hVmem x).1 hh.2.2,
+          fun hh => ⟨List.mem_finRange x, hSV x hh, (hVmem x).2 hh⟩⟩
       · intro x
         constructor
         · intro hS
